@@ -427,6 +427,8 @@ class C18(CompSpec):
                 g["batch"] = rng.randint(1, 3)
                 if k % 3 == 1:
                     g["wall_spelling"] = rng.choice(["hhms", "dhms", "h_m_s"])
+                if k % 3 == 2 and rng.random() < 0.7:
+                    g["sing_off"] = True  # a Singularity section that is present but disabled
             scenario.normalize(scen)
             if k % 4 == 0:
                 scenario.to_cli_mode(scen)
@@ -446,7 +448,8 @@ class C18(CompSpec):
         sims = [r for t, r in zip(tasks, results) if t["fn"] == "sim" and not r.get("error")]
         ok = [r for t, r in zip(tasks, results) if t["fn"] != "sim" and not r.get("error")]
         out = {"simulated_submissions": len(sims), "scripts_read_at_the_simulated_sbatch": sum(r.get("sbatches") or 0 for r in sims),
-               "simulated_resubmissions_with_changed_hpc_parameters": sum(1 for r in sims if (r.get("epochs") or 1) > 1)}
+               "simulated_resubmissions_with_changed_hpc_parameters": sum(1 for r in sims if (r.get("epochs") or 1) > 1),
+               "simulated_submissions_with_a_disabled_singularity_section": sum(1 for t in tasks if t["fn"] == "sim" and any(g.get("sing_off") for g in t["args"]["scen"]["groups"]))}
         for r in ok:
             for k, v in (r.get("stats") or {}).items():
                 if isinstance(v, int):
